@@ -748,19 +748,25 @@ def has_side_effect(node: ast.AST, safe_callable_whitelist: Collection[str] = fr
         )
 
     if isinstance(node, ast.Call):
-        # like e.g. "".join()
+        # like e.g. "".join(). That goes for the method only, not for what is called in the arguments.
+        func_whitelist = safe_callable_whitelist
         if isinstance(node.func, ast.Attribute) and isinstance(node.func.value, ast.Constant):
-            safe_callable_whitelist = safe_callable_whitelist | {node.func.attr}
+            func_whitelist = safe_callable_whitelist | {node.func.attr}
 
+        arguments = [*node.args, *(item.value for item in node.keywords)]
         return (
             not all(
-                child.id in safe_callable_whitelist or child.id == "_"
+                child.id in func_whitelist or child.id == "_"
                 for child in ast.walk(node.func)
                 if isinstance(child, ast.Name)
             )
-            or any(has_side_effect(item, safe_callable_whitelist) for item in node.args)
-            or any(has_side_effect(item.value, safe_callable_whitelist) for item in node.keywords)
-            or not all(child.attr in safe_callable_whitelist for child in walk(node, ast.Attribute))
+            or any(has_side_effect(item, safe_callable_whitelist) for item in arguments)
+            or not all(child.attr in func_whitelist for child in walk(node.func, ast.Attribute))
+            or not all(
+                child.attr in safe_callable_whitelist
+                for item in arguments
+                for child in walk(item, ast.Attribute)
+            )
         )
 
     if isinstance(node, ast.Starred):
